@@ -81,7 +81,7 @@ PackedRound(v, lgn, tbl, lghalf) ==
   LET W == Pow2(PackLg)
       halfm == Pow2(lghalf)
       Vec(k) == [p \in 1..W |-> v[k * W + p - 1]]
-      omega == [p \in 1..W |-> Tw(tbl, lghalf, IF Mutant = "packed_omega" THEN (p - 1) % (2 * halfm) % Len(tbl[lghalf + 1])
+      omega == [p \in 1..W |-> Tw(tbl, lghalf, IF Mutant = "packed_omega" THEN ((p - 1) % (2 * halfm)) % Len(tbl[lghalf + 1])
                                                 ELSE (p - 1) % halfm)]
       Pair(k) == LET uv == Interleave(Vec(k), Vec(k + 1), halfm)
                      t == [p \in 1..W |-> Mod(omega[p] * uv[2][p])]
